@@ -72,6 +72,9 @@ EV_INEXACT_DIV = 1      # some `/` had a non-zero remainder
 EV_MOD_SIGN = 2         # some MOD differed from the floored (SymPy) Mod
 
 _M64 = (1 << 64) - 1
+# powers with a larger exponent (and |base| > 1) are not evaluated: the
+# valuation is treated like an undefined one (skipped)
+MAX_EXPONENT = 64
 
 
 # --------------------------------------------------------------------------
@@ -94,6 +97,8 @@ def fmod(a, p):
 
 def ipow(a, e):
     """Fortran integer power a**e for integer e."""
+    if e > MAX_EXPONENT and abs(a) > 1:
+        raise Undefined("exponent too large to evaluate")
     if e >= 0:
         return a ** e
     if a == 0:
@@ -351,6 +356,8 @@ def compile_term(term, sem=FORTRAN):
                 e = e.numerator
                 if e < 0 and a == 0:
                     raise Undefined("0 ** negative")
+                if abs(e) > MAX_EXPONENT and abs(a) != 1 and a != 0:
+                    raise Undefined("exponent too large to evaluate")
                 return a ** e
             return pow_exact
         return lambda env: ipow(lhs(env), rhs(env))
